@@ -172,6 +172,12 @@ def call_outcomes(self: Interp, node: ast.Call, st: State):
             if snap is None:
                 raise Unsupported("before() outside a statement contract")
             return [(st, self.eval_old(node.args[0], st, snap), None)]
+        if nm == "entry":
+            # entry(e): the value of e when the (innermost) loop whose invariant is being evaluated was entered
+            snap = getattr(self.frame, "loop_entry", None)
+            if snap is None:
+                raise Unsupported("entry() outside a loop invariant")
+            return [(st, self.eval_old(node.args[0], st, snap), None)]
         if nm == "cast":
             return [(st, self.eval(node.args[1], st), None)]
         if nm == "print":
